@@ -321,7 +321,7 @@ Plan gen(uint64_t seed, int tier) {
     if (d.req == OPUS_SET_BITRATE_REQUEST) v = (int)r.pick({6000, 8000, 12000, 16000, 24000, 32000, 64000, 128000, 256000, (int)r.range(500, 300000)});
     p.ops.push_back(mkop("CTL", {d.req, v}));
   };
-  auto push_src = [&]() { p.ops.push_back(mkop("SRC", {r.weighted({1, 1, 4, 2, 5, 3, 1, 1, 2, 0, 0, 1, 4}), r.pick({60, 110, 220, 440, 1000, 3000, 7000}), r.pick({10, 100, 300, 500, 900, 1000}), r.range(1, 1000), r.range(0, 1000)})); };
+  auto push_src = [&]() { p.ops.push_back(mkop("SRC", {r.weighted({1, 1, 4, 2, 5, 3, 1, 1, 2, 0, 0, 1, 4, 1, 1, 2}), r.pick({60, 110, 220, 440, 1000, 3000, 7000}), r.pick({10, 100, 300, 500, 900, 1000}), r.range(1, 1000), r.range(0, 1000)})); };
   for (int i = (int)r.range(0, 3); i > 0; i--) push_ctl();
   if (r.chance(0.7)) p.ops.push_back(mkop("CTL", {11002, r.pick({1000, 1000, 1001, 1001, 1001, 1002, -1000})}));
   push_src();
